@@ -137,7 +137,7 @@ def run(ctx):
         ctx.violations.append({"clause": "Model:" + inv, "what": "HostPort reference violates its own sanity property: " + hmc.out[-1200:], "sites": []})
     ncpu = vlib.NCPU
     ha = 3 if q else 4
-    hshards = [["exh", ha, i, ncpu] for i in range(ncpu)] + [["rand", ctx.seed * 19 + i, 1500 if q else 30000] for i in range(4)]
+    hshards = [["exh", ha, i, ncpu] for i in range(ncpu)] + [["rand", ctx.seed * 19 + i, 1500 if q else 30000] for i in range(4)] + [["ports"]]
     ht, hd, hbad, _ = vlib.pattern_f(ctx, "san", "fn_host", hshards, "HostPortRows", "HostPortRows.cfg", xmx="5g")
     for v in hbad:
         r = v.get("row") or {}
